@@ -504,6 +504,16 @@ def check_property(prop, tier, seed, workers, replay=None, budget_s=None, run_li
                     viol_paths.append(finalize_violation(binary, prop, seed, rp, tmp, note="simulation stalled on a mutex"))
         if hangs:
             log(hangs[0]["stderr"][-4000:])
+            try:
+                # keep what there is for a post-mortem (the scratch directory is removed)
+                od = os.path.join(VERIF, "out", "hang")
+                os.makedirs(od, exist_ok=True)
+                tag = "%s-%s-%d" % (prop, seed, int(time.time()))
+                open(os.path.join(od, tag + ".stderr.txt"), "w").write(hangs[0]["stderr"])
+                if hangs[0].get("cur") and os.path.exists(hangs[0]["cur"]):
+                    shutil.copy(hangs[0]["cur"], os.path.join(od, tag + ".scenario.json"))
+            except Exception:
+                pass
             raise Harness("worker hung (watchdog)")
         for c in crashes:
             sig, head = crash_signature(prop, c["stderr"])
